@@ -60,8 +60,9 @@ DROPPED = [
     "c17_assets: every lifted closure and every helper of src/plan.rs that a contracted function calls (discovered from the text, class Helpers) "
     "is emitted TWICE from the same text: as the exec fn and as a spec fn (`twin`; exec callees resolve to their specs through "
     "when_used_as_spec), with the obligation `r == twin(args)`; a helper whose body is outside the expression subset => UNDECIDED",
-    "c17_assets: `OPT.map(|p| E)` on an Option is replaced by `match OPT { Some(p) => Some(E), None => None }` (R12'-option-map, the std "
-    "definition; Verus knows nothing about an un-annotated closure)",
+    "c17_assets: chains of Option combinators (map, map_or, map_or_else, filter, and_then, is_some_and, is_none_or, unwrap_or(_else), or(_else), "
+    "is_some, is_none, copied, cloned) are replaced, leftmost first, by the `match` that is their std definition, closure bodies verbatim "
+    "(R12'-option; Verus knows nothing about an un-annotated closure, and the spec twin of a helper cannot call exec std functions)",
     "c17_assets: is_key_direct_child_of: the `for` loop gets a ghost iterator name and an invariant (R10), nothing else is touched (`==` on "
     "paths / slices and the `[..n]` indexing go through the PartialEq / Index impls of the DerivationPath stub)",
     "c17_assets: `fn f(mut self, ..)` -> `fn f(self, ..) { let mut slf = self; ..slf.. }` (R17-mut-self: Verus has no `mut self`; a by-value "
@@ -601,6 +602,7 @@ class SetChains:
         cap_decl = "".join(", %s: %s" % (n, t) for n, t in caps)
         cap_args = "".join(", %s" % n for n, _ in caps)
         ret_lt = with_lifetime(lift_ret) if kind == "find_map" else "bool"
+        cbody = option_map(cbody)                      # Option combinators inside the closure body (R12'-option)
         body = cbody if cbody.startswith("{") else "{ %s }" % cbody
         lifted = "fn lift_%s<'a>(rec__: %s%s) -> %s {\n    %s\n    %s\n}" % (cid, ptype, cap_decl, ret_lt, bind, body)
         twin = "spec fn spec_lift_%s<'a>(rec__: %s%s) -> %s {\n    %s\n    %s\n}\n" % (cid, ptype, cap_decl, ret_lt, bind, body)
@@ -666,14 +668,19 @@ fn chain_%(cid)s<'a>(set: &'a BTreeSet<%(elem)s>%(cap_decl)s) -> (r: %(chain_ret
         return "chain_%s(&self.%s%s)" % (cid, field, cap_args)
 
 
+KEYWORDS = ("if", "match", "return", "while", "in", "else", "let", "mut", "move", "ref", "as", "break", "loop")
+
+
 def receiver_start(text, dot):
     """Start offset of the postfix expression that ends right before the `.` at `dot` (method-call chain, field accesses,
-    paths, calls, indexing)."""
+    paths, calls, indexing, a parenthesised expression).  Unary `&` / `*` / `!` bind weaker than a method call and are not
+    part of the receiver."""
     i = dot
     while True:
         j = i
         while j > 0 and text[j - 1].isspace():
             j -= 1
+        after_group = False
         if j > 0 and text[j - 1] in ")]":
             depth, k = 0, j - 1
             while k >= 0:
@@ -687,17 +694,18 @@ def receiver_start(text, dot):
             if k < 0:
                 return None
             j = k
-            while j > 0 and text[j - 1].isspace():
-                j -= 1
+            after_group = True
         k = j
         while k > 0 and (text[k - 1].isalnum() or text[k - 1] == "_"):
             k -= 1
-        # path segments `a::b`
-        while k > 1 and text[k - 2:k] == "::":
+        if after_group and text[k:j] in KEYWORDS:
+            k = j                                                # `if (..)`, `return (..)`: the group itself is the receiver
+        # path segments `a::b`, turbofish-free
+        while k < j and k > 1 and text[k - 2:k] == "::":
             k -= 2
             while k > 0 and (text[k - 1].isalnum() or text[k - 1] == "_"):
                 k -= 1
-        if k == j and j == i:
+        if k == j and not after_group:
             return None
         j = k
         m = j
@@ -706,30 +714,145 @@ def receiver_start(text, dot):
         if m > 0 and text[m - 1] == "." and not (m > 1 and text[m - 2] == "."):
             i = m - 1
             continue
-        if m > 0 and text[m - 1] in "&*" and text[m - 2:m] != "&&":
-            return m - 1
+        if m > 0 and text[m - 1] == "?":
+            return None
         return j
 
 
-@rule("R12'-option-map")
+def split_args(inner):
+    """Top-level comma split of an argument list (closure bars `|a, b|` protect their commas)."""
+    parts, depth, cur, in_bars = [], 0, "", False
+    i = 0
+    while i < len(inner):
+        ch = inner[i]
+        if ch == "|" and depth == 0 and inner[i:i + 2] != "||" and (in_bars or not cur.strip()):
+            in_bars = not in_bars
+        if ch in "([{":
+            depth += 1
+        elif ch in ")]}":
+            depth -= 1
+        if ch == "," and depth == 0 and not in_bars:
+            parts.append(cur.strip())
+            cur = ""
+        else:
+            cur += ch
+        i += 1
+    if cur.strip():
+        parts.append(cur.strip())
+    return parts
+
+
+def closure_parts(arg, what):
+    """(pattern, body) of a closure literal `|PAT| BODY` (a `move` prefix and a type annotation of the parameter are dropped);
+    a plain function path `F` is taken as `|v__| F(v__)`; `|| BODY` gives pattern ''."""
+    arg = re.sub(r"^move\s+", "", arg.strip())
+    if arg.startswith("||"):
+        return "", arg[2:].strip()
+    cm = re.match(r"^\|([^|]*)\|\s*(.*)$", arg, flags=re.S)
+    if cm:
+        pat_ = cm.group(1).strip()
+        if not pat_.startswith("("):
+            pat_ = re.sub(r"\s*:\s*.+$", "", pat_, flags=re.S)      # `|x: T|`
+        return pat_, cm.group(2).strip()
+    if re.match(r"^[A-Za-z_][\w:]*$", arg):
+        return "v__", "%s(v__)" % arg
+    raise Undecided("argument `%s` of `.%s(` is neither a closure literal nor a function path" % (arg[:60], what))
+
+
+SIMPLE_VALUE = re.compile(r"^(?:-?\d[\w.]*|true|false|None|\"[^\"]*\"|[A-Za-z_][\w]*(?:::[A-Za-z_]\w*)*)$")
+OPTION_COMBINATORS = ("map_or_else", "map_or", "map", "filter", "and_then", "is_some_and", "is_none_or", "unwrap_or_else", "unwrap_or",
+                      "is_some", "is_none", "copied", "cloned", "or_else", "or")
+
+
+@rule("R12'-option")
 def option_map(text):
-    """`RECV.map(|PAT| BODY)` on an Option (every iterator chain has been rewritten before) -> `(match RECV { Some(PAT) =>
-    Some(BODY), None => None })`: the std definition of Option::map, with the closure inlined so that Verus sees its body."""
+    """Chains of Option combinators -> `match` (every iterator chain has been rewritten before, so a remaining `.map(` /
+    `.filter(` ... has an Option receiver; on any other receiver the `Some` / `None` patterns do not type-check => UNDECIDED).
+    Each combinator is replaced by its std definition with the closure body inlined VERBATIM, so that Verus (and the spec twin
+    of a helper) sees what it computes:
+        o.map(|p| B)            match o { Some(p) => Some(B), None => None }
+        o.map_or(D, |p| B)      match o { Some(p) => B, None => D }            (D evaluated before the match unless it is a literal / path)
+        o.map_or_else(|| D, |p| B)   match o { Some(p) => B, None => D }
+        o.filter(|p| B)         match o { Some(v) => { let p = &v; if B { Some(v) } else { None } }, None => None }
+        o.and_then(|p| B)       match o { Some(p) => B, None => None }
+        o.is_some_and(|p| B) / o.is_none_or(|p| B)     match o { Some(p) => B, None => false / true }
+        o.unwrap_or(D) / o.unwrap_or_else(|| D)        match o { Some(v) => v, None => D }
+        o.or(D) / o.or_else(|| D)                      match o { Some(v) => Some(v), None => D }
+        o.is_some() / o.is_none()                      match o { Some(_) => true / false, None => false / true }
+        o.copied() / o.cloned()                        match o { Some(v) => Some(*v) / Some((*v).clone()), None => None }
+    The leftmost combinator is rewritten first, so the receiver of the next one is the parenthesised `match`."""
+    pat = re.compile(r"\.\s*(%s)\s*\(" % "|".join(OPTION_COMBINATORS))
+    guard = 0
     while True:
-        ms = list(re.finditer(r"\.\s*map\s*\(\s*\|", text))
-        if not ms:
+        guard += 1
+        m = pat.search(text)
+        if not m or guard > 200:
             return text
-        m = ms[0]
-        open_ = text.index("(", m.start())
+        name = m.group(1)
+        open_ = m.end() - 1
         close = match_close(text, open_)
-        cm = re.match(r"^\|([^|]*)\|\s*(.*)$", text[open_ + 1:close].strip(), flags=re.S)
         start = receiver_start(text, m.start())
-        if not cm or start is None:
-            raise Undecided("cannot inline the closure of `.map(` at `%s`" % text[max(0, m.start() - 40):m.start() + 30])
-        pat_, body = cm.group(1).strip(), cm.group(2).strip()
-        pat_ = re.sub(r":\s*[^,)]+", "", pat_)          # drop a type annotation
-        recv = text[start:m.start()]
-        text = text[:start] + "(match %s { Some(%s) => Some(%s), None => None })" % (recv, pat_, body) + text[close + 1:]
+        if start is None:
+            raise Undecided("cannot find the receiver of `.%s(` at `%s`" % (name, text[max(0, m.start() - 40):m.start() + 30]))
+        recv = text[start:m.start()].strip()
+        args = split_args(text[open_ + 1:close])
+        nargs = {"map_or_else": 2, "map_or": 2, "is_some": 0, "is_none": 0, "copied": 0, "cloned": 0}.get(name, 1)
+        if len(args) != nargs:
+            raise Undecided("`.%s(` with %d argument(s)" % (name, len(args)))
+        pre = ""
+
+        def value(d):
+            """an eagerly evaluated argument: literals / paths are used in place, anything else is bound first (after the receiver)"""
+            nonlocal pre, recv
+            if SIMPLE_VALUE.match(d):
+                return d
+            pre = "let opt__ = %s; let dflt__ = %s; " % (recv, d)
+            recv = "opt__"
+            return "dflt__"
+        if name == "map":
+            p_, b_ = closure_parts(args[0], name)
+            arms = "Some(%s) => Some(%s), None => None" % (p_, b_)
+        elif name == "map_or":
+            d_ = value(args[0])
+            p_, b_ = closure_parts(args[1], name)
+            arms = "Some(%s) => %s, None => %s" % (p_, b_, d_)
+        elif name == "map_or_else":
+            _, d_ = closure_parts(args[0], name)
+            p_, b_ = closure_parts(args[1], name)
+            arms = "Some(%s) => %s, None => %s" % (p_, b_, d_)
+        elif name == "filter":
+            p_, b_ = closure_parts(args[0], name)
+            if re.match(r"^\w+$", p_):
+                bind = "" if p_ == "_" else "let %s = &v__; " % p_
+            elif re.match(r"^&\s*\w+$", p_):
+                bind = "let %s = v__; " % p_.lstrip("& ")
+            else:
+                raise Undecided("closure parameter pattern `|%s|` of Option::filter is outside the supported forms" % p_)
+            arms = "Some(v__) => { %sif %s { Some(v__) } else { None } }, None => None" % (bind, b_)
+        elif name == "and_then":
+            p_, b_ = closure_parts(args[0], name)
+            arms = "Some(%s) => %s, None => None" % (p_, b_)
+        elif name in ("is_some_and", "is_none_or"):
+            p_, b_ = closure_parts(args[0], name)
+            arms = "Some(%s) => %s, None => %s" % (p_, b_, "false" if name == "is_some_and" else "true")
+        elif name == "unwrap_or":
+            arms = "Some(v__) => v__, None => %s" % value(args[0])
+        elif name == "unwrap_or_else":
+            arms = "Some(v__) => v__, None => %s" % closure_parts(args[0], name)[1]
+        elif name == "or":
+            arms = "Some(v__) => Some(v__), None => %s" % value(args[0])
+        elif name == "or_else":
+            arms = "Some(v__) => Some(v__), None => %s" % closure_parts(args[0], name)[1]
+        elif name in ("is_some", "is_none"):
+            arms = "Some(_) => %s, None => %s" % (("true", "false") if name == "is_some" else ("false", "true"))
+        elif name == "copied":
+            arms = "Some(v__) => Some(*v__), None => None"
+        else:
+            arms = "Some(v__) => Some((*v__).clone()), None => None"
+        new = "(match %s { %s })" % (recv, arms)
+        if pre:
+            new = "({ %s%s })" % (pre, new[1:-1])
+        text = text[:start] + new + text[close + 1:]
 
 
 def emit_generated(vf, chains, fq, reg, props):
